@@ -128,7 +128,9 @@ CLAIMED = {
             "(cancel after disposition), F14a (finish returns others' messages).",
             "Real-time bound, Redis maintenance/background consumer, Worker.run call order are not decided."),
 }
-NOT_APPLICABLE_REASON = "check not built yet (work in progress; see DESIGN.md section 5 for the planned contracts)"
+NOT_APPLICABLE_REASON = ("no contract built: the converter / dependency code needs signatures as sequences of parameter records, "
+                         "insertion-ordered dicts and side-effecting comprehensions over symbolic collections, which the engine "
+                         "does not decide yet (DESIGN.md section 14); not claimed with a bounded check only")
 
 
 def main():
